@@ -41,6 +41,8 @@ FAILS = {
     "substring": (["ss = \"abc\"", "v = ss.substring(2, 8 + a)"], "range", None),
     "map-get": (["mm = map[str, int]", "v = get mm[\"k\"]"], "nil", "unwrap of `nil`"),
 }
+# failure kinds raised by a built-in method -> a fragment of that built-in's name in the `<native code>#...` trace line
+NATIVE_OF = {"remove": "Remove", "remove-at-len": "Remove", "substring": "Substring", "conv-byte": "ToByte", "conv-int": "ToInt"}
 QUICK_FAILS = ["assert", "get-nil", "index", "index-at-len", "set-at-len", "div-int", "div-byte", "overflow-add", "conv-byte", "remove", "nil-field", "div-float"]
 
 
@@ -192,7 +194,7 @@ class C17(Check):
             "plain / inside if / else / while / from; for chains <= 1 also the failing expression as print argument, list element, if condition, "
             "while condition, assert operand and string concatenation operand).  Each frame prints a line before calling the next.  Non-trivial = chain length >= 1.")
     assumptions = ["function labels are learnt from make_function/store pairs and method names in the loaded bytecode (hook H3), not guessed",
-                   "block pseudo-frames (<if>, <else>, <while>, <native code>...) are dropped from the printed trace before comparison",
+                   "block pseudo-frames (<if>, <else>, <while>) are dropped from the printed trace before comparison; a failure raised by a built-in method must list that built-in (<native code>#...) as the innermost line, other failures must not",
                    "stdout and stderr are captured through one pipe so that flush ordering is observable"]
     chunksize = 16
 
@@ -261,6 +263,16 @@ class C17(Check):
             bad("no-trace", f"no call stack trace in the report: {after[:300]}")
         else:
             got = [re.sub(r"^\s*(>>|\^)\s*", "", l).strip() for l in m.group(1).split("\n") if l.strip()]
+            # built-in frames: a failure raised by a built-in method lists that built-in as the innermost active function; no
+            # other failure may show one there (a `map` / `filter` frame between a callback and its caller is accepted either way)
+            natives = [(i, g) for i, g in enumerate(got) if g.startswith("<native code>")]
+            want_native = NATIVE_OF.get(fk)
+            inner = got[0] if got else ""
+            if want_native:
+                if not (inner.startswith("<native code>") and want_native.lower() in inner.lower()):
+                    bad("trace-native", f"the failure is raised inside the built-in `{want_native}`; the innermost trace line is {inner!r}")
+            elif inner.startswith("<native code>"):
+                bad("trace-native", f"no built-in is active at this failure, yet the innermost trace line is {inner!r}")
             got = [g for g in got if not g.startswith("<")]
             by_store, methods = learn_labels(load_dump(du))
             want = []
